@@ -4,6 +4,7 @@
 From Coq Require Import List Arith Bool Lia.
 Import ListNotations.
 From Verif.C10 Require Import Model Proofs Proofs2 Proofs3.
+Local Notation idc := (fun s0 : state => s0).
 
 Notation cnt := (count_occ Nat.eq_dec).
 #[local] Opaque Nat.eq_dec.
@@ -176,8 +177,8 @@ Lemma RI_comb_dec c s : RI s -> RI (comb_dec T c s). Proof. unfold comb_dec. ri.
 Hint Resolve RI_comb_dec : ri.
 Lemma RI_elem_fn c i b a s : RI s -> RI (elem_fn T c i b a s). Proof. unfold elem_fn. ri. Qed.
 Hint Resolve RI_elem_fn : ri.
-Lemma RI_exec_act s a : RI s -> RI (exec_act T s a). Proof. unfold exec_act. ri. Qed.
-Lemma RI_exec_acts l s : RI s -> RI (fold_left (exec_act T) l s).
+Lemma RI_exec_act s a : RI s -> RI (exec_act T idc s a). Proof. unfold exec_act. ri. Qed.
+Lemma RI_exec_acts l s : RI s -> RI (fold_left (exec_act T idc) l s).
 Proof. apply fold_left_inv. intros; apply RI_exec_act; auto. Qed.
 Hint Resolve RI_exec_acts : ri.
 Lemma RI_exec_tsteps r l : forall s, RI s -> RI (exec_tsteps T r l s).
@@ -218,14 +219,14 @@ Hint Resolve RI_async_throw : ri.
 Lemma RI_async_step b s : RI s -> RI (async_step T b s).
 Proof. intros H. unfold async_step. destruct (ab_rest b); [ri|]. split_pr. ri. Qed.
 Hint Resolve RI_async_step : ri.
-Lemma RI_exec_finally sc ful arg cap s : RI s -> RI (exec_finally T sc ful arg cap s).
+Lemma RI_exec_finally sc ful arg cap s : RI s -> RI (exec_finally T idc sc ful arg cap s).
 Proof.
   intros H. unfold exec_finally. cbv beta zeta.
   destruct (s_ret sc); try solve [ri]; split_pr; split_nc; ri.
 Qed.
 Hint Resolve RI_exec_finally : ri.
 
-Lemma RI_exec_job j s : RI s -> RI (exec_job T j s).
+Lemma RI_exec_job j s : RI s -> RI (exec_job T idc j s).
 Proof.
   intros H. unfold exec_job. destruct (j_kind j) as [r a|p x]; [ri|].
   unfold new_pair_for. cbv beta iota zeta. destruct x; try solve [ri]. split_nc. ri.
@@ -266,7 +267,7 @@ Proof.
   induction fuel; intros s H; cbn [drainS].
   - destruct (queue s); auto; try (apply RI_set_exhausted, RI_drop_all, H).
   - destruct (queue s) as [|j rest] eqn:E; auto.
-    assert (H1 : RI (exec_job T j (mark_ran j (set_queue rest s)))) by (apply RI_exec_job, RI_mark_ran, RI_set_queue, H).
+    assert (H1 : RI (exec_job T idc j (mark_ran j (set_queue rest s)))) by (apply RI_exec_job, RI_mark_ran, RI_set_queue, H).
     destruct (intr _); auto; try (apply RI_drop_all, H1).
 Qed.
 
